@@ -239,6 +239,71 @@ def mut_rebind_local(src):
     return src + "\n\nprev_blocks_global = next_blocks_global\n"
 
 
+# ---- twin audit (same-typed section variables / glue functions written for each other, swapped argument order)
+def mut_livein_univ(src):
+    """(t1) _calculate_livein starts from the universal set: the function uses ONE of the twins univ / null only"""
+    return replace_once(src, "        livein_information = self._null_set(key)\n\n", "        livein_information = self._universal_set(key)\n\n")
+
+
+def mut_reachin_else_univ(src):
+    """(t2) _calculate_reachin: the non-entry blocks start from the universal set as well"""
+    return replace_once(
+        src,
+        "        else:\n            reachin_information = self._null_set(key)\n\n        path_context = self._path_contexts[key]\n",
+        "        else:\n            reachin_information = self._universal_set(key)\n\n        path_context = self._path_contexts[key]\n",
+    )
+
+
+def mut_livein_fold_inter(src):
+    """(t3) _calculate_livein: the fold over the successors intersects"""
+    return replace_once(
+        src,
+        "            livein_information = self._union(key, livein_information, liveout[next_b])\n",
+        "            livein_information = self._intersection(key, livein_information, liveout[next_b])\n",
+    )
+
+
+def mut_livein_prev(src):
+    """(t4) _calculate_livein folds over prev_blocks_global (forward / backward twin)"""
+    return replace_once(
+        src,
+        "        for next_b in next_blocks_global(self._function, block):\n            livein_information = self._union(key, livein_information, liveout[next_b])\n",
+        "        for next_b in prev_blocks_global(self._function, block):\n            livein_information = self._union(key, livein_information, liveout[next_b])\n",
+    )
+
+
+def mut_reachin_next(src):
+    """(t5) _calculate_reachin folds over next_blocks_global (forward / backward twin)"""
+    return replace_once(src, "        for prev_b in prev_blocks_global(self._function, block):\n", "        for prev_b in next_blocks_global(self._function, block):\n")
+
+
+def mut_reachin_union_args(src):
+    """(a1) _calculate_reachin: the two set arguments of _union swapped"""
+    return replace_once(
+        src,
+        "            reachin_information = self._union(\n                key,\n                reachin_information,\n                self._intersection(key, reachout[prev_b], path_context[block][prev_b]),\n            )\n",
+        "            reachin_information = self._union(\n                key,\n                self._intersection(key, reachout[prev_b], path_context[block][prev_b]),\n                reachin_information,\n            )\n",
+    )
+
+
+def mut_livein_inter_args(src):
+    """(a2) _calculate_livein: the two set arguments of the refining _intersection swapped"""
+    return replace_once(
+        src,
+        "            livein_information = self._intersection(\n                key, livein_information, liveout[block.sub_return_point]\n",
+        "            livein_information = self._intersection(\n                key, liveout[block.sub_return_point], livein_information\n",
+    )
+
+
+def mut_reachin_inner_args(src):
+    """(a3) _calculate_reachin: the two set arguments of the inner _intersection swapped"""
+    return replace_once(
+        src,
+        "self._intersection(key, reachout[prev_b], path_context[block][prev_b])",
+        "self._intersection(key, path_context[block][prev_b], reachout[prev_b])",
+    )
+
+
 MUTATIONS = [
     ("(i) prev: entry only if no local predecessor", UA, mut_prev_entry_no_pred),
     ("(ii) leaf: `not is_callsub_block` dropped", UA, mut_leaf_drop_callsub),
@@ -267,6 +332,14 @@ MUTATIONS = [
     ("(s10) Subroutine.retsub_blocks edited", SUBR, mut_retsub_blocks),
     ("(s11) break in a loop body", GEN, mut_break),
     ("(s12) prev_blocks_global rebound in analyses.py", UA, mut_rebind_local),
+    ("(t1) TWIN livein: universal set for null set", GEN, mut_livein_univ),
+    ("(t2) TWIN reachin: non-entry starts from univ", GEN, mut_reachin_else_univ),
+    ("(t3) TWIN livein: the fold intersects", GEN, mut_livein_fold_inter),
+    ("(t4) TWIN livein: folds over the predecessors", GEN, mut_livein_prev),
+    ("(t5) TWIN reachin: folds over the successors", GEN, mut_reachin_next),
+    ("(a1) ARGS reachin: _union(key, y, x)", GEN, mut_reachin_union_args),
+    ("(a2) ARGS livein: _intersection(key, y, x)", GEN, mut_livein_inter_args),
+    ("(a3) ARGS reachin: inner _intersection(key, y, x)", GEN, mut_reachin_inner_args),
 ]
 REQUIRED = 5  # the first five rows are the mutations required by the task
 
@@ -388,6 +461,12 @@ def main():
         print(" | ".join(c.ljust(w) for c, w in zip(r, widths)))
         if k == 0:
             print("-+-".join("-" * w for w in widths))
+    print(
+        "\nNotes.  (t1): _calculate_livein uses ONE of the same-typed section parameters univ / null.  Without the dead `let`\n"
+        "of tcommon.pin_twins the Section discharge gives the mutant the type of the original (the parameter is merely renamed)\n"
+        "and `calculate_livein_gen T null union inter f` = Analysis.livein still holds; with it calculate_livein_gen takes both\n"
+        "parameters in the order of the Section header and the mutant starts from its FIRST one: calculate_livein_gen_eq fails."
+    )
     print("\nRESULT:", "all mutations caught, clean source accepted" if ok else "FAILURE")
     sys.exit(0 if ok else 1)
 
